@@ -1295,7 +1295,8 @@ struct TemplateCore {
             const SizeT   loop_size      = loop_set->Size();
             SizeT         loop_index     = 0;
 
-            if (loops_items_->Size() <= tag.Level) {
+            // 'Level' counts every enclosing tag (also <if>), so more than one slot can be missing.
+            while (loops_items_->Size() <= tag.Level) {
                 *loops_items_ += LoopItem{};
             }
 
